@@ -391,6 +391,15 @@ func main() {
 		runAckCase(work, a)
 		gen.Emit(a)
 	}
+	for i, c := range corpusConflict() {
+		runConflict(work, 200000+i, c)
+		gen.Emit(c)
+	}
+	for i := 0; i < n/8+1; i++ {
+		c := genConflict(r.Fork())
+		runConflict(work, i, c)
+		gen.Emit(c)
+	}
 	for i := 0; i < n; i++ {
 		c := genRot(r)
 		runRot(c)
